@@ -32,7 +32,9 @@
    Trace lines (ndjson):
      {"ev":"cfg","name":..,"finality":TAG}      new oracle, new (empty) L1, new store, empty L2  (starts a new trace)
      {"ev":"mine","num":N,"leaves":[g,..]}      L1 block N with info-tree leaves whose GERs are named g (ints >= 1)
-     {"ev":"fin","to":N}   {"ev":"sync","to":N}   {"ev":"reorg","from":N}   {"ev":"ext","g":g}
+     {"ev":"fin","to":N}   {"ev":"reorg","from":N}   {"ev":"ext","g":g}
+     {"ev":"sync","to":N,"failed":B}            the store's last processed block is now N (ProcessBlock returned nil up to
+                                                N); B # 0: ProcessBlock(B) failed at COMMIT, nothing of B is stored
      {"ev":"tick","calls":[..],"ret":..,"cell":..}   one real processLatestGER; calls in the order they were received:
         {"dep":"l1","tag":TAG,"res":"ok"|"err","num":N}
         {"dep":"sync","blk":N,"res":"leaf"|"notprocessed"|"notfound"|"noblock0"|"err","g":g}      (not judged)
